@@ -153,13 +153,14 @@ pub fn unit_judge(p: &mut Parser, accepted: bool, viable: bool, progress: bool, 
     kani::cover!(errs > 0, "W: an error path");
 }
 
-/// judgement in generative mode: the stream is a sentence of the rule (all n tokens)
-pub fn gen_judge(p: &mut Parser, kf_region: u8) {
+/// judgement in generative mode: the first ns tokens of the stream are a sentence of the rule
+/// and the following token (if any) cannot continue it
+pub fn gen_judge(p: &mut Parser, ns: usize, kf_region: u8) {
     let errs = unsafe { l1::G_ERRS };
     unsafe {
         assert!(l1::G_DEPTH == 0 && l1::G_MIN_DEPTH >= 0, "C02/C04: node events are balanced");
     }
-    let all = l1::l2_consumed(p) == l1::l2_ntok(p);
+    let all = l1::l2_consumed(p) == ns;
     if kf_region != 0 {
         let mismatch = errs > 0 || !all;
         kani::cover!(mismatch && kf_region == 1, "KF:C04_DAG_OPERATOR_RESTRICTED");
@@ -167,10 +168,11 @@ pub fn gen_judge(p: &mut Parser, kf_region: u8) {
         kani::cover!(mismatch && kf_region == 3, "KF:C04_SLICE_ELEMENT_SECOND_VALUE");
     } else {
         assert!(errs == 0, "C04: every sentence of the documented rule parses with zero syntax errors");
-        assert!(all, "C04: the rule function consumes the whole sentence");
+        assert!(all, "C04: the rule function consumes exactly the sentence (and nothing of what follows it)");
     }
-    kani::cover!(l1::l2_ntok(p) >= 3, "I: a sentence of >= 3 constituents");
-    kani::cover!(l1::l2_ntok(p) >= 1, "W: a non-empty sentence");
+    kani::cover!(ns >= 3, "I: a sentence of >= 3 constituents");
+    kani::cover!(ns >= 1, "W: a non-empty sentence");
+    kani::cover!(ns < l1::l2_ntok(p), "I: a sentence followed by another token");
 }
 
 // known-finding regions (narrow predicates over the symbolic input), see known_findings.json
